@@ -12,6 +12,8 @@ var UncontrolledMapRanges int64
 
 // SetMapOrder selects the run's map-iteration order: 0 = canonical (sorted
 // keys), k>0 = a pseudo-random permutation stream derived from (run seed, k).
+//
+//go:norace
 func (s *Sim) SetMapOrder(k int) {
 	s.mapSalt = uint64(k)
 	s.mapState = Mix(s.Seed, 0x6d61706f72646572+uint64(k))
@@ -20,6 +22,8 @@ func (s *Sim) SetMapOrder(k int) {
 // MapKeys is what `for k, v := range m` is rewritten to iterate over: the keys
 // of m in an order that is a function of the run seed only. The result is a
 // []K for the map's key type K.
+//
+//go:norace
 func MapKeys(m interface{}) interface{} {
 	v := reflect.ValueOf(m)
 	keys := v.MapKeys()
@@ -44,13 +48,13 @@ func MapKeys(m interface{}) interface{} {
 	if sortable && len(keys) > 1 {
 		if t := Current(); t != nil && t.sim.mapSalt != 0 {
 			s := t.sim
-			s.mu.Lock()
+			s.lock()
 			for i := len(keys) - 1; i > 0; i-- {
 				j := int(splitmix(&s.mapState) % uint64(i+1))
 				keys[i], keys[j] = keys[j], keys[i]
 			}
 			s.mapPerms++
-			s.mu.Unlock()
+			s.unlock()
 		}
 	}
 	for i, k := range keys {
